@@ -83,6 +83,8 @@ type c01Case struct {
 	Perturb    bool         `json:"perturb"`
 	PanicVal   int          `json:"panicval"` // 0 string, 1 error, 2 nil
 	Kind       string       `json:"kind"`
+	SameUUID   bool         `json:"same_uuid"` // every message carries the same (empty) UUID: UUIDs need not be unique
+	CtxErr     bool         `json:"ctx_err"`   // a failing handler leaves a cancelled derived context on its copy
 
 	Srcs   []int          `json:"srcs"` // lineages whose source Publish returned nil
 	Log    []*c01Delivery `json:"log"`
@@ -113,9 +115,15 @@ func c01Name(m c01Msg) string {
 	return fmt.Sprintf("L%d/%s", m.Lin, strings.Join(parts, "."))
 }
 
+// set per case (cases run one after the other)
+var c01SameUUID bool
+
 func c01Make(m c01Msg) *message.Message {
 	name := c01Name(m)
 	msg := message.NewMessage(name, []byte("payload of "+name))
+	if c01SameUUID {
+		msg.UUID = ""
+	}
 	msg.Metadata.Set("lin", strconv.Itoa(m.Lin))
 	parts := make([]string, len(m.Path))
 	for i, p := range m.Path {
@@ -144,7 +152,7 @@ func c01Read(msg *message.Message) c01Msg {
 		}
 	}
 	name := c01Name(m)
-	if msg.UUID != name || string(msg.Payload) != "payload of "+name || len(msg.Metadata) != 2 {
+	if (msg.UUID != name && !(c01SameUUID && msg.UUID == "")) || string(msg.Payload) != "payload of "+name || len(msg.Metadata) != 2 {
 		m.Lin += 100000
 	}
 	return m
@@ -235,6 +243,12 @@ func (c *c01Case) handler(stage int) message.HandlerFunc {
 		}
 		switch d.Fault.Kind {
 		case 1:
+			if c.CtxErr {
+				// what a timeout-style handler does: a derived context, cancelled on the way out
+				ctx, cancel := context.WithCancel(msg.Context())
+				msg.SetContext(ctx)
+				cancel()
+			}
 			return outs, errors.New("scripted handler error")
 		case 2:
 			switch c.PanicVal {
@@ -345,6 +359,7 @@ func c01Run(rt *hookrt.Runtime, c *c01Case, stall time.Duration) {
 	c.accepted = make([]int, c.K+1)
 	c.acked = make([]int, c.K)
 	c.done = make(chan struct{})
+	c01SameUUID = c.SameUUID
 	c.Srcs, c.Sink, c.Log, c.Notes = []int{}, []c01Msg{}, []*c01Delivery{}, []string{}
 	c.touch()
 	rt.Reset()
@@ -596,6 +611,8 @@ func c01Gen(rng *rand.Rand, id int, big bool) *c01Case {
 	if c.Persistent {
 		c.Early = rng.Intn(c.NSrc + 1)
 	}
+	c.SameUUID = rng.Intn(4) == 0
+	c.CtxErr = rng.Intn(2) == 0
 	if c.Blocking && c.SharedPS {
 		// D9 (known finding, property C05): with blocking Publish a consumer that publishes to the
 		// same GoChannel before acking deadlocks behind a pending Subscribe.  Messages replayed
@@ -662,7 +679,8 @@ func c01Singles(id *int, k, nsrc int, fans [][]int, blocking, persistent bool, b
 		for call := 0; call < nsrc+1; call++ {
 			for _, f := range kinds {
 				c := &c01Case{ID: *id, Kind: "single", K: k, NSrc: nsrc, Fans: fans, Publishers: 1, FailSrc: []int{},
-					Blocking: blocking, Persistent: persistent, Buffer: buffer, OneRouter: (*id)%2 == 0, SharedPS: true, PanicVal: (*id) % 3}
+					Blocking: blocking, Persistent: persistent, Buffer: buffer, OneRouter: (*id)%2 == 0, SharedPS: true, PanicVal: (*id) % 3,
+					CtxErr: (*id)%2 == 1, SameUUID: (*id)%5 == 0}
 				*id++
 				for st := 0; st < k; st++ {
 					row := []c01Fault{}
